@@ -36,12 +36,23 @@ theorem no_unsafe_attr_or_extern :
     (facts.all fun f => !(inP f && (f.kind == "unsafe_attr" || f.kind == "extern_block" || f.kind == "ptr"))) = true := by
   decide +kernel
 
-/-- module closure: what the portable hasher's files import stays inside the portable path (the
-crate's own unsafe-free modules, `core`, or the enclosing module in unit tests) -/
-def allowedUsePrefixes : List String := ["crate::internal::", "crate::key::", "crate::traits::", "crate::portable::", "core::", "super::"]
+/-- module closure, computed on the module graph of the current tree: every source file reachable from the
+files `PortableHash` is written in — through `use` items, expression / type / macro-body paths into the
+crate (`crate::m::f(..)` calls included), `super::` paths, root-level re-exports resolved to the module
+they come from, and submodule declarations; `#[cfg(test)]` items excluded, every cfg branch included — is
+free of `unsafe` tokens, unsafe attributes, foreign blocks, raw-pointer constructs and of lint attributes
+that re-allow `unsafe_code`.  A new helper module with unsafe code called from the portable path (under
+whatever cfg) falsifies this theorem; a harmless new import of an unsafe-free module does not. -/
 theorem module_closure :
-    (facts.all fun f => !(coreFiles.contains f.file && f.kind == "use") || allowedUsePrefixes.any (startsWith f.detail ·)) = true := by
+    (facts.all fun f => !(portableClosure.contains f.file) ||
+      !(f.kind == "unsafe" || f.kind == "unsafe_attr" || f.kind == "extern_block" || f.kind == "ptr" ||
+        ((f.kind == "lint" || f.kind == "crate_attr") && has f.detail "unsafe_code" && !strictUnsafeLints.contains f.detail))) = true := by
   decide +kernel
+
+/-- on the current tree the closure is exactly the five files the portable hasher is written in (kept as a
+separate, purely informative theorem: a harmless new unsafe-free module changes it without any alarm,
+because the check only requires `module_closure`) -/
+example : coreFiles.all (portableClosure.contains ·) = true := by decide +kernel
 
 /-- macros invoked by the portable hasher's files are never ones defined in a non-portable file of
 the crate (such as `x86/macros.rs`): they are the crate's own `impl_write!`/`impl_hasher!` (defined in
